@@ -95,8 +95,8 @@ def gen_scenarios(spec, rng, n):
                     new.append({"id": "rs-" + op["id"], "kind": "reseed", "seed": 1234, "service": svc0, "method": "-"})
                     new.append(op)
                 a["ops"] = new
-        sc = {"client": client, "actors": [a for a in actors if a["ops"]], "jitter_default": 0.0,
-              "entropy_seed": rng.randrange(2**32)}
+        sc = {"client": client, "actors": [a for a in actors if a["ops"]], "jitter_default": rng.choice([0.0, 0.0, 0.5, 1.0]),
+              "entropy_seed": rng.randrange(2**32)}     # jitter > 0: backoff sleeps take time, other callers run inside them
         if threads and len(sc["actors"]) > 1:
             sc["threads"] = True
             sc["sched_seed"] = rng.randrange(2 ** 32)
@@ -158,7 +158,17 @@ def gen_op(spec, rng, fs, s, m, af, oid, client="sync"):
     if codes and rng.random() < 0.5:
         for _ in range(rng.randint(1, 3)):
             script.append({"code": rng.choice(codes), "lat": rng.choice([0.0, 0.01])})
-    script.append({"lat": rng.choice([0.0, 0.0, 0.02, 0.1]), "reply": {}})
+    if rng.random() < 0.15:
+        # the call is finally REJECTED (a 4xx): whatever the client does on that path must not touch other callers
+        non = [c for c in ("INVALID_ARGUMENT", "NOT_FOUND", "ALREADY_EXISTS", "PERMISSION_DENIED", "FAILED_PRECONDITION", "OUT_OF_RANGE")
+               if c not in (pol["codes"] if pol else [])]
+        if client == "rest":
+            non = [c for c in non if c in ("NOT_FOUND",)]
+        if non:
+            script.append({"lat": rng.choice([0.0, 0.02, 0.1]), "code": rng.choice(non)})
+            op["rejected"] = True
+    if not op.get("rejected"):
+        script.append({"lat": rng.choice([0.0, 0.0, 0.02, 0.1]), "reply": {}})
     op["server"] = script
     if m["output"] == ".google.longrunning.Operation":
         op["kind"] = "lro"
